@@ -72,7 +72,7 @@ func GenOps(tp *simkern.Tape, c GenCfg) []*Op {
 		nonce := c.NonceBase + int64(i) + 1
 		op := &Op{CancelAt: -1, ReqID: fmt.Sprintf("rq-%d", nonce)}
 		if c.Levels && tp.Bool(1, 2) {
-			op.LogLevel = hx.Levels[1+tp.Draw(len(hx.Levels)-1)]
+			op.LogLevel = hx.Levels[tp.Draw(len(hx.Levels))] // EXCEPTION included: then no client log may pass
 		}
 		kind := tp.Weighted([]int{4, 5, 2})
 		if c.OnlyUnary {
